@@ -39,3 +39,21 @@ Definition os_bank_SendCoinsFromAccountToModule (w : sworld) (from to : addr) (c
 Definition os_bank_SendCoinsFromModuleToAccount (w : sworld) (from to : addr) (cs : list go_coin) : outcome (sworld * unit) :=
   if blocked to then Err ERR_UNAUTHORIZED
   else do b <- send_all (sw_bank w) from to cs; Ok (with_sbank w b, tt).
+
+(* ---- genesis (keeper/genesis.go) ---- *)
+(* the module account and x/bank's GetAllBalances / x/auth's SetModuleAccount: as in StreamKeeperPrims.v, over the bank
+   component (readers return an outcome in this rendering) *)
+Definition os_str_GetStreamModuleAccount (w : sworld) : outcome go_modacc := Ok (Some STREAM_MACC).
+Definition os_bank_GetAllBalances (w : sworld) (a : addr) : outcome (list go_coin) :=
+  Ok (map (fun kv => (snd (fst kv), snd kv)) (filter (fun kv => (fst (fst kv) =? a) && (0 <? snd kv)) (bal (sw_bank w)))).
+Definition os_acc_SetModuleAccount (w : sworld) (m : go_modacc) : outcome (sworld * unit) := Ok (w, tt).
+
+(* what IterateAllStreams hands its callback, in order: the GENERATED go_st_IterateAllStreams (prefix iteration, the
+   address pair parsed from each key by the generated AddressesFromStreamKey, the value unmarshalled) with a callback
+   that appends and never stops.  The listed addresses are BYTES; the document spells them as strings
+   (receiverAddr.String()): [unemb] is that conversion back to an abstract address.  It is not a component of the world
+   (no other function of the rendering needs it) but a Section variable of GeneratedStreamKeeperOnStore.v, hence a
+   parameter of go_ExportGenesis alone and of every theorem about it. *)
+Definition os_str_AllStreams (unemb : list N -> go_addr) (w : sworld) : outcome (list go_StreamExport) :=
+  go_st_IterateAllStreams (sw_store w)
+    (fun acc_ a_ => Ok (acc_ ++ [mk_go_StreamExport (unemb (fst (fst a_))) (unemb (snd (fst a_))) (snd a_)], false)) [].
